@@ -325,8 +325,12 @@ def execute(plan, sched_spec=None):
         pass
     sys.setswitchinterval(1000.0)
     from sim import locks
+    from sim.executor import heap_canary
     locks.install()
-    return _Exec(plan, sched_spec).run()
+    c0 = heap_canary()
+    out = _Exec(plan, sched_spec).run()
+    out['heap_canary'] = [c0, heap_canary()]
+    return out
 
 
 def eval_ref(request):
@@ -696,7 +700,7 @@ def simplify_op(op):
 
 def evidence(tier, seed, by_mode, det, n_viol, known_hits, errors, wall):
     from sim.common import source_hash
-    tot = sum(s.get('runs', 0) for s in by_mode.values())
+    tot = sum(s.get('runs', 0) + s.get('directed_runs', 0) for s in by_mode.values())
     shapes = set()
     for s in by_mode.values():
         shapes |= s.get('shapes', set())
@@ -732,6 +736,9 @@ def evidence(tier, seed, by_mode, det, n_viol, known_hits, errors, wall):
             'yield_points': s.get('points', 0), 'preemptions': s.get('switches', 0),
             'hot_yield_points_after_shared_writes': s.get('hot_points', 0),
             'atomicity_probe_switches': s.get('probe_switches', 0),
+            'conflict_directed_runs': s.get('directed_runs', 0),
+            'conflict_directed_windows_reached': s.get('directed_windows_reached', 0),
+            'conflict_directed_compared_calls': s.get('directed_compared', 0),
             'waits_on_library_locks': s.get('lock_blocks', 0),
             'seeds_per_hour': int(s.get('runs', 0) * 3600 / w),
             'runs_by_ntasks': s.get('runs_by_ntasks', {}), 'max_threads': s.get('max_ntasks', 0),
